@@ -1,6 +1,6 @@
 (* C08 model: s-expression interface (run_C08).  Executable definitions only. *)
 From Coq Require Import List ZArith String Ascii Bool Arith.
-From Verif Require Import Lib.Sexp Gen.C08_tables Model.C08_json.
+From Verif Require Import Lib.Sexp Gen.C08_tables Model.C08_json Model.C08_full Model.C08_text.
 Import ListNotations.
 Open Scope string_scope.
 Open Scope list_scope.
@@ -195,7 +195,48 @@ Definition flags (t : tree) : sexp :=
 
 Definition run_tree (t : tree) : sexp :=
   let j := enc_min t in
-  SList [sx_json j; sx_decoded (decode j); flags t; sx_tree (reload t)].
+  SList [sx_json j; sx_decoded (decode j); flags t; sx_tree (reload t); SStr (dumps j)].
+
+(* full mode with computed derived values: [cwd parts; package file path?; module file path?; dotted prefix] *)
+Definition dx_fctx (s : sexp) : option fctx :=
+  match s with
+  | SList [cwd; pkg; md; SStr prefix] =>
+      do cwd' <- as_list_of as_str cwd; do pkg' <- as_opt dx_fpath pkg; do md' <- as_opt dx_fpath md;
+      Some (mkFctx cwd' pkg' md' prefix)
+  | _ => None end.
+
+Definition sx_resjson (r : res json) : sexp :=
+  match r with Ok j => SList [SStr "ok"; sx_json j; SStr (dumps j)] | Err e => SList [SStr "enc-err"; sx_err e] end.
+
+(* [document; decoded; the full document of the reloaded tree seen from the same place] *)
+Definition run_fullD (c : fctx) (t : tree) : sexp :=
+  match enc_fullD c t with
+  | Err e => SList [SStr "enc-err"; sx_err e]
+  | Ok j => SList [SStr "ok"; sx_json j; sx_decoded (decode j); sx_resjson (enc_fullD c (reload t)); SStr (dumps j)]
+  end.
+
+Definition sx_pres (r : pres json) : sexp :=
+  match r with
+  | POk j _ => SList [SStr "ok"; sx_json j]
+  | PErr => SList [SStr "err"]
+  | PUnmod => SList [SStr "unmodelled"]
+  | PFuel => SList [SStr "fuel"]
+  end.
+
+Definition sx_tres (r : tres) : sexp :=
+  match r with
+  | TOk v => sx_decoded (Ok v)
+  | TErr e => sx_decoded (Err e)
+  | TJson => SList [SStr "json-error"]
+  | TUnmod => SList [SStr "err"; SStr "unmodelled"]
+  end.
+
+(* pathlib on one (normalised) path string and a base: [str(Path(s)); relative_to(base)?; parent; parent.parent] *)
+Definition run_path (base s : string) : sexp :=
+  SList [SStr (unparts (parts s));
+         of_opt (fun r => SStr (unparts r)) (strip_parts (parts base) (parts s));
+         SStr (unparts (parent_parts (parts s)));
+         SStr (unparts (parent_parts (parent_parts (parts s))))].
 
 Definition run_full (fs : list (string * finfo)) (t : tree) : sexp :=
   let F := fun p => match lookup p fs with Some fi => fi | None => default_finfo end in
@@ -210,6 +251,9 @@ Definition run_C08 (s : sexp) : sexp :=
       if String.eqb cmd "clean" then match a with SStr x => SStr (clean x) | _ => bad_input end
       else if String.eqb cmd "tree" then match dx_tree a with Some t => run_tree t | None => bad_input end
       else if String.eqb cmd "json" then match dx_json a with Some j => sx_decoded (decode j) | None => bad_input end
+      else if String.eqb cmd "dumps" then match dx_json a with Some j => SStr (dumps j) | None => bad_input end
+      else if String.eqb cmd "loads" then match a with SStr x => sx_pres (loads x) | _ => bad_input end
+      else if String.eqb cmd "loads-decode" then match a with SStr x => sx_tres (loads_decode x) | _ => bad_input end
       else if String.eqb cmd "expr" then
         match dx_ev a with
         | Some e => SList [sx_json (enc_ev e); sx_decoded (decode (enc_ev e)); of_bool (wf_slot e); of_bool (has_enum e);
@@ -221,6 +265,12 @@ Definition run_C08 (s : sexp) : sexp :=
         match as_list_of dx_finfo a, dx_tree b with
         | Some fs, Some t => run_full fs t
         | _, _ => bad_input end
+      else if String.eqb cmd "fullD" then
+        match dx_fctx a, dx_tree b with
+        | Some c, Some t => run_fullD c t
+        | _, _ => bad_input end
+      else if String.eqb cmd "path" then
+        match a, b with SStr base, SStr x => run_path base x | _, _ => bad_input end
       else bad_input
   | _ => bad_input
   end.
